@@ -352,8 +352,11 @@ def lifetime_where_case(cid, rng):
     is_async = rng.random() < 0.3
     asy = "async " if is_async else ""
     at = "#[::async_trait::async_trait]\n" if (is_async and dynamic) else ""
-    deps_form = rng.choice(["impl", "generic", "generic_where"])
+    deps_form = rng.choice(["impl", "generic", "generic_where", "hrtb"])
     L = ["#[::entrait::entrait(pub Dep)] fn dep<D>(deps: &D, x: usize) -> usize { x + 1 }"]
+    if deps_form == "hrtb":
+        # one higher-ranked where predicate on the dependency with several bounds that all use the bound lifetime
+        L.append("pub trait HrA<'q> {} pub trait HrB<'q> {} impl<'q, T> HrA<'q> for ::entrait::Impl<T> {} impl<'q, T> HrB<'q> for ::entrait::Impl<T> {}")
     L.append("#[::entrait::entrait(PickImpl, delegate_by = %s)] /*@inv*/" % ("ref" if dynamic else "DelegatePick"))
     L.append("%spub trait Pick { %sfn pick<'a, 'b>(&self, long: &'a str, short: &'b str) -> &'b str where 'a: 'b; }" % (at, asy))
     for t, bias in (("Ta", 0), ("Tb", 100)):
@@ -361,6 +364,8 @@ def lifetime_where_case(cid, rng):
             g, d, w = "<'a, 'b>", "&impl Dep", "where 'a: 'b"
         elif deps_form == "generic":
             g, d, w = "<'a, 'b, D: Dep>", "&D", "where 'a: 'b"
+        elif deps_form == "hrtb":
+            g, d, w = "<'a, 'b, D: Dep>", "&D", rng.choice(["where for<'q> D: HrA<'q> + HrB<'q>, 'a: 'b", "where 'a: 'b, for<'q, 'r> D: HrA<'q> + HrB<'r> + HrA<'r>"])
         else:
             g, d, w = "<'a, 'b, D>", "&D", rng.choice(["where D: Dep, 'a: 'b", "where 'a: 'b, D: Dep"])
         L.append("pub struct %s;" % t)
